@@ -37,7 +37,14 @@ def build_harness():
 def translate():
     sys.path.insert(0, os.path.join(VERIF, 'vlib'))
     import extract
-    st, facts = extract.run()
+    try:
+        st, facts = extract.run()
+    except Exception as e:      # the translator could not read the source at all: the transcribed facts stand in, and the caller reports the tie as broken
+        import traceback
+        pin = os.path.join(VERIF, 'pinned', 'CosetGen')
+        for f in os.listdir(pin):
+            if f.endswith('.lean'): shutil.copy(os.path.join(pin, f), os.path.join(LEAN, 'CosetGen', f))
+        st = {'translator': 'FAILED: %s' % (traceback.format_exc().strip().split('\n')[-1][:200])}; facts = {}
     return st, facts
 
 def lake_build(targets, timeout=3600):
